@@ -64,8 +64,11 @@ def model_summary(m, limit=40):
     return "; ".join(out)[:3000]
 
 
-def discharge(ob, axioms, timeout_ms):
-    v = check_sat(list(axioms) + list(ob.hyps) + [z3.Not(ob.goal)], timeout_ms)
+def discharge(ob, axioms, timeout_ms, model=None):
+    fs = list(axioms) + list(ob.hyps) + [z3.Not(ob.goal)]
+    if model is not None and hasattr(model, "ground_instances"):
+        fs = fs + model.ground_instances(fs)
+    v = check_sat(fs, timeout_ms)
     status = {"unsat": "discharged", "sat": "open", "unknown": "unknown"}[v.status]
     return Result(ob.name, status, v.backend, v.seconds, ob.kind,
                   detail=(model_summary(v.model) if v.status == "sat" else v.reason), model=v.model)
@@ -163,6 +166,9 @@ def verify_function(model, contract, timeout_ms=10000, body_override=None, extra
         if v.status != "unsat":
             reach = True
             break
+    results.append(Result(f"{contract.qualname}:cover:no-dead-end", "open" if ex.dead_ends else "discharged", "z3", 0.0, "cover",
+                          detail=("assumptions became contradictory before line(s) %s: obligations there are vacuous" % ex.dead_ends) if ex.dead_ends else "",
+                          group=f"{contract.qualname}:cover"))
     results.append(Result(f"{contract.qualname}:cover:some-path-feasible", "discharged" if reach else "open", "z3", 0.0, "cover",
                           group=f"{contract.qualname}:cover"))
     info = {"qualname": contract.qualname, "source": f"{rel}:{qual}", "sha256_16": h, "lines": [fdef.lineno, fdef.end_lineno],
